@@ -73,6 +73,36 @@ structure Admissible (c : Ctx) (pc : PathConf) (t : Template) (kts : List Str) (
   str : c.dictToSidStr x.fields x.type = .ok x.string
   strNe : x.string ≠ []
 
+theorem nodupStr_nodup : ∀ (l : List Str), nodupStr l = true → l.Nodup
+  | [], _ => List.nodup_nil
+  | k :: ks, h => by
+    simp only [nodupStr, Bool.and_eq_true, Bool.not_eq_true', List.contains_eq_mem,
+      decide_eq_false_iff_not] at h
+    exact List.nodup_cons.2 ⟨h.1, nodupStr_nodup ks h.2⟩
+
+/-- the Boolean form of the hypotheses (evaluated by the driver, decided by the kernel for the
+    generated configurations) gives `Admissible` -/
+theorem admissible_of_B (c : Ctx) (pc : PathConf) (x : Sid) (p : Str)
+    (h : admissibleB c pc x p = true) :
+    Admissible c pc ((pc.resolver.lookup x.type).getD [])
+      ((c.cfg.sid.keyTypes.lookup (((Str.splitStr x.type c.cfg.sid.sep).head?).getD [])).getD [])
+      x p := by
+  unfold admissibleB at h
+  cases ht : pc.resolver.lookup x.type with
+  | none => rw [ht] at h; simp at h
+  | some t =>
+    cases hk : c.cfg.sid.keyTypes.lookup (((Str.splitStr x.type c.cfg.sid.sep).head?).getD []) with
+    | none => rw [ht, hk] at h; simp at h
+    | some kts =>
+      rw [ht, hk] at h
+      simp only [Bool.and_eq_true, beq_iff_eq, Bool.not_eq_true', Option.getD_some] at h ⊢
+      obtain ⟨⟨⟨⟨⟨⟨⟨h1, h2⟩, h3⟩, h4⟩, h5⟩, h6⟩, h7⟩, h8⟩ := h
+      refine ⟨by first | rfl | exact ht, by first | rfl | exact hk, h1, nodupStr_nodup _ h2, h3, h4, h5, h6, ?_, ?_⟩
+      · cases hs : c.dictToSidStr x.fields x.type with
+        | ok s => rw [hs] at h7; simp only [beq_iff_eq] at h7; rw [h7]
+        | error e => rw [hs] at h7; simp at h7
+      · intro h0; rw [h0] at h8; simp at h8
+
 /-- the parse-back half: `path_to_dict` returns the Sid's own type and fields -/
 theorem c05_parse_back (c : Ctx) (cfg : Option Str) (pc : PathConf)
     (hpc : c.cfg.pathConf? cfg = some pc) (hwf : pathTplsOk c.env pc = true)
@@ -137,11 +167,24 @@ section Demo
 open Generated
 
 /-- `Except` has no `DecidableEq` instance: decide the Boolean test instead -/
+def okIs {α : Type} [DecidableEq α] (r : Except Err α) (v : α) : Bool :=
+  match r with | .ok a => decide (a = v) | .error _ => false
+
 theorem eq_ok_of_test {α : Type} [DecidableEq α] (r : Except Err α) (v : α)
-    (h : (match r with | .ok a => decide (a = v) | .error _ => false) = true) : r = .ok v := by
+    (h : okIs r v = true) : r = .ok v := by
   cases r with
-  | ok a => simpa using h
-  | error _ => simp at h
+  | ok a => simpa [okIs] using h
+  | error _ => simp [okIs] at h
+
+/-- C05 with every hypothesis in evaluable form: what a generated file states for a Sid of a
+    generated configuration (`Generated/AltWF.lean`), each `= true` decided by the kernel -/
+theorem c05_roundtrip_B (c : Ctx) (cfg : Option Str) (pc : PathConf)
+    (hpc : c.cfg.pathConf? cfg = some pc) (hwf : pathTplsOk c.env pc = true)
+    (hex : pathsExclusive c.env c.cfg.sid.searchSymbols pc = true)
+    (x : Sid) (p : Str) (hB : admissibleB c pc x p = true)
+    (hp : okIs (c.sidPath cfg x) (some p) = true) :
+    c.sidOfPath p cfg = .ok x :=
+  c05_roundtrip c cfg pc hpc hwf hex x p _ _ (admissible_of_B c pc x p hB) (eq_ok_of_test _ _ hp)
 
 def demoCtx : Ctx := ⟨demoConf, demoEnv⟩
 
